@@ -285,8 +285,13 @@ impl Harness {
                 Op::DropTable { name } => io_res(p.drop_table(name)),
                 Op::Insert { table, rows } => {
                     let mut q = msi::Insert::into(table.clone());
-                    for r in rows {
-                        q = q.row(r.iter().map(|v| v.to_msi()).collect());
+                    if rows.len() >= 2 && rows.len() % 2 == 0 {
+                        // the batch form of the builder
+                        q = q.rows(rows.iter().map(|r| r.iter().map(|v| v.to_msi()).collect()).collect());
+                    } else {
+                        for r in rows {
+                            q = q.row(r.iter().map(|v| v.to_msi()).collect());
+                        }
                     }
                     io_res(p.insert_rows(q))
                 }
@@ -310,7 +315,11 @@ impl Harness {
                 Op::WriteStream { name, len, seed } => match p.write_stream(name) {
                     Err(e) => io_res::<()>(Err(e)),
                     Ok(mut w) => {
-                        let r = w.write_all(&stream_content(*len, *seed)).and_then(|_| w.flush());
+                        // in three pieces, the way a copy loop would
+                        let c = stream_content(*len, *seed);
+                        let a = c.len() / 3;
+                        let b = c.len() - c.len() / 4;
+                        let r = w.write_all(&c[..a]).and_then(|_| w.write_all(&c[a..b])).and_then(|_| w.write_all(&c[b..])).and_then(|_| w.flush());
                         io_res(r)
                     }
                 },
